@@ -281,6 +281,13 @@ func c16Scenario(rng *rand.Rand) *prodScenario {
 		}
 		sc.Msgs = append(sc.Msgs, ms)
 	}
+	if !sc.StopInputEarly && sc.Codec == sarama.CompressionNone && rng.Intn(8) == 0 {
+		// Producer.MaxMessageBytes above the (lowered) MaxRequestSize, and one message whose request is larger
+		// than MaxRequestSize: it may fail, it must not be put on the wire
+		sc.MaxMessageBytes = 1 << 20
+		ms := sc.Msgs[rng.Intn(len(sc.Msgs))]
+		ms.Value = append([]byte(fmt.Sprintf("%d:", ms.ID)), randBytes(rng, int(sc.MaxRequestSize)+rng.Intn(40000))...)
+	}
 	sc.Submitters = 1
 	bigLast := false
 	if sc.StopInputEarly && sc.FlushBytes == 200 && sc.Codec == sarama.CompressionNone && rng.Intn(3) != 0 {
